@@ -16,12 +16,14 @@ def run(ctx):
     if thorough:
         rr.mc(ctx, rr.INST_B, "boot", avals="{0,5,11}")
         rr.mc(ctx, rr.INST_C, "boot", avals="{0,9,31}")
+        rr.mc(ctx, rr.INST_C2, "boot", avals="{0,9,31}")
+        rr.mc(ctx, rr.INST_G, "boot")
         rr.mc(ctx, rr.INST_D, "boot", avals="{0,1,2,3,4,5,6,7,8,9,10,11,12,13,14,15}")
     # 2. replay of the model's behaviours on the real N = 1024 code through the embeddings
-    plans = [(rr.INST_A, "A", "spqlios-fma", "optim", 1), (rr.INST_A, "A", "nayuki-portable", "debug", 3), (rr.INST_B, "B", "fftw", "optim", 2)]
+    plans = [(rr.INST_A, "A", "spqlios-fma", "optim", 1), (rr.INST_A, "A", "nayuki-portable", "debug", 3), (rr.INST_B, "B", "fftw", "optim", 2), (rr.INST_C2, "C2", "spqlios-avx", "optim", 3)]
     if thorough:
         plans = [(rr.INST_A, "A", be, "optim", 1) for be in ("spqlios-fma", "spqlios-avx", "nayuki-portable", "nayuki-avx", "fftw")] + \
-                [(rr.INST_B, "B", "spqlios-fma", "optim", 1), (rr.INST_B, "B", "fftw", "debug", 3), (rr.INST_C, "C", "nayuki-avx", "optim", 2), (rr.INST_D, "D", "spqlios-avx", "debug", 1), (rr.INST_A, "A", "nayuki-portable", "debug", 2)]
+                [(rr.INST_B, "B", "spqlios-fma", "optim", 1), (rr.INST_B, "B", "fftw", "debug", 3), (rr.INST_C2, "C2", "nayuki-avx", "optim", 2), (rr.INST_G, "G", "spqlios-avx", "optim", 2), (rr.INST_D, "D", "spqlios-avx", "debug", 1), (rr.INST_A, "A", "nayuki-portable", "debug", 2)]
     for inst, tag, be, kind, take in plans:
         bad, rows = rr.replay(ctx, inst, tag, be, kind, ("boot", "bootv"), ctx.seed, take=take)
         if bad and "crash" in bad:
